@@ -46,6 +46,8 @@ R1C1_RANGE_EXPR = f"""
 
 R1C1_RANGE_RE = re.compile('^' + R1C1_RANGE_EXPR + '$', re.VERBOSE)
 
+QUOTED_SHEETNAME_RE = re.compile(r"^('(?:[^']|'')*')!(.*)$")
+
 TABLE_REF_RE = re.compile(r"^(?P<table_name>[^[]+)\[(?P<table_selector>.*)\]$")
 
 TABLE_SELECTOR_RE = re.compile(
@@ -550,13 +552,21 @@ def unquote_sheetname(sheetname):
 def split_sheetname(address, sheet=''):
     sh = ''
     if '!' in address:
-        sh, address_part = address.split('!', maxsplit=1)
+        quoted = QUOTED_SHEETNAME_RE.match(address)
+        if quoted:
+            # a quoted sheet name ends at its closing quote, it may hold a '!'
+            sh, address_part = quoted.groups()
+        else:
+            sh, address_part = address.split('!', maxsplit=1)
 
         # Remove redundant sheet references and deal with inner quotes
         redundant_sheet = unquote_sheetname(sh).replace("'", "''")
         address_part = address_part.replace(f"'{redundant_sheet}'!", '')
 
-        if '!' in address_part:
+        if '!' in address_part and not quoted:
+            # an unquoted sheet name holding a '!': the last one ends the name
+            sh, address_part = address.rsplit('!', maxsplit=1)
+        if '!' in address_part or ':' in sh:
             raise NotImplementedError(f"Non-rectangular formulas: {address}")
         sh = unquote_sheetname(sh)
         address = address_part
